@@ -277,6 +277,24 @@ def run(ctx):
     r.check(not sched and cc.exit.id in arm, "%s#exhaustion-schedules-nothing" % crp.qname,
             "exhaustion arm schedules another attempt", where(crp, t.stmt))
 
+    # ---- R7 producer stop fails every outstanding send
+    stop_fails_outstanding(ctx, ctx.rule("R7", "stop() cancels every outstanding send, iterating a copy of the list", 2, "B"))
+
+
+def stop_fails_outstanding(ctx, r):
+    """shared shape with C19.R5: stop() reaches a cancel of every outstanding send (iteration over a copy)"""
+    stop = ctx.func(PROD + ".stop")
+    co = ctx.func(PROD + "._cancel_outstanding")
+    cs = ctx.cfg(stop)
+    cn = [n for n in cs.nodes if any(call_name(c) == co.name for c in n.calls())]
+    r.check(bool(cn) and cs.dominates([cn[0].id], cs.exit.id), "%s#cancels-outstanding" % stop.qname,
+            "stop() can return without cancelling every outstanding send", where(stop, stop.node), "sends pending at stop never fire")
+    loop = [x for x in walk_body_shallow(co.body) if isinstance(x, ast.For)]
+    ok = len(loop) == 1 and norm(loop[0].iter) in ("list(self._outstanding)", "self._outstanding[:]", "tuple(self._outstanding)") and any(
+        isinstance(x, ast.Call) and call_name(x) == "cancel" and call_recv(x) == unparse(loop[0].target) for x in ast.walk(loop[0]))
+    r.check(ok, "%s#iterates-copy-and-cancels" % co.qname, "outstanding sends are cancelled while iterating the live list (each cancel removes "
+            "its entry): every second send is skipped", where(co, co.node), "stop() with >= 2 pending sends: every other Deferred never fires")
+
 
 MUTANTS = [
     {"id": "unwrap-failure", "file": "producer.py",
@@ -307,6 +325,8 @@ MUTANTS = [
      "old": "            except BrokerResponseError as e:\n                p = payloadsByTopicPart[t_and_p]\n                failed_payloads.append((p, e))\n            else:",
      "new": "            except BrokerResponseError as e:\n                p = payloadsByTopicPart[t_and_p]\n                failed_payloads.append((p, e))\n                _deliver_result(deferredsByTopicPart[t_and_p], res)\n            else:",
      "expect": "C01.R1"},
+    {"id": "outstanding-no-copy", "file": "producer.py", "old": "for d in list(self._outstanding):", "new": "for d in self._outstanding:",
+     "expect": "C01.R7", "note": "seeded C01-2"},
     {"id": "client-failed-pairs-from-success", "file": "client.py",
      "old": "            if not success:\n                # The brokerclient deferred was errback()'d:",
      "new": "            if success:\n                # The brokerclient deferred was errback()'d:", "expect": ["C01.R6", "C01.R1"]},
